@@ -312,7 +312,7 @@ def run(prop, tier):
                 items.append(dict(t=x["t"], how=how))
             expect[("peg", key(x["t"]), key(ws))] = x["res"]
         rng.shuffle(items)
-        for i, ch in enumerate(lib.chunks(items, max(1, len(items) // 1500))):
+        for i, ch in enumerate(lib.chunks(items, max(1, len(items) // 500))):
             if ch:
                 jobs.append(dict(id="%s/%d" % (c["name"], i), kind="peg", ws=ws, terms=ch))
         counts["peg_terms"] += len(items)
@@ -395,7 +395,8 @@ def run(prop, tier):
             stats[k] = stats.get(k, 0) + v
     print("timing: drivers %.1fs, %s, %s" % (time.time() - t1, counts, stats))
     if stats.get("hangs"):
-        print("note: %d term runs exceeded the per-term time limit (recorded as position -1)" % stats["hangs"])
+        print("note: %d term runs exceeded the per-term time limit (recorded as position -1); %d terms not run after that"
+              % (stats["hangs"], stats.get("terms_not_run_after_hangs", 0)))
     if not (stats.get("parses") and stats.get("tag_evals") and stats.get("json_docs")):
         raise lib.MachineryError("driver did not reach all of the code under test: %s" % stats)
     if stats["ok"] < stats["parses"] // 20 or stats["fail"] < stats["parses"] // 20:
